@@ -426,3 +426,21 @@ Theorem C04_t2_packets_deliver_fields : forall termAll style nl nr nc order g pi
     Forall2 (PktFields termAll cells0) eps dps.
 Proof. exact packets_deliver_fields. Qed.
 Print Assumptions C04_t2_packets_deliver_fields.
+
+(* The encoder is total under the same hypotheses: EncodePackets returns its packets (no error
+   from a tag tree, the pass-count code or the length code), and what it recorded per packet is
+   the contribution schedule of the cell's blocks.  No size bound on the contributions. *)
+From V Require Import T2.T2ProofsPackets5.
+Theorem C04_t2_packets_encode_total : forall termAll nl nr nc order g pidx geo cells0,
+  (forall c r, enc_pidx cells0 c r = pidx c r) -> (forall c r, NoDup (pidx c r)) ->
+  (2 <= order -> pk_ok nr nc pidx (precinct_position_key g nr)) ->
+  (forall k, In k (cell_keys nr nc pidx) -> CellRel termAll nl geo 0 k cells0 []) ->
+  0 <= order <= 4 -> 0 < nl ->
+  exists eps cells', enc_packets order nl nr nc g cells0 = Ok (eps, cells') /\ Forall (incls_ok cells0) eps.
+Proof. exact packets_encode_total. Qed.
+Print Assumptions C04_t2_packets_encode_total.
+
+Theorem C04_t2_enc_header_ok : forall termAll L l ps ds, BandsRel termAll L l ps ds -> 0 <= l < L ->
+  exists hdr incs ps', enc_header ps l = Ok (hdr, incs, ps').
+Proof. exact enc_header_ok. Qed.
+Print Assumptions C04_t2_enc_header_ok.
